@@ -2,6 +2,7 @@ package drv
 
 import (
 	"fmt"
+	"github.com/parsyl/parquet/verifkit/ref/thriftc"
 	"strings"
 
 	"github.com/parsyl/parquet/verifkit/ref/dremel"
@@ -124,6 +125,24 @@ func featuresFor(leaf *pqfile.Node) []string {
 	if leaf.MaxRep > 0 {
 		fs = append(fs, "bit_packed_rep_levels")
 	}
+	// the same unsupported features on a page whose HEADER is larger than 64 KiB (an unknown
+	// thrift field of 70 KiB in the page header, as a future writer may add)
+	for _, f := range []string{"value_encoding_id_10", "data_page_v2"} {
+		fs = append(fs, "bighdr:"+f)
+	}
+	switch leaf.Type {
+	case pqfile.TInt32, pqfile.TInt64:
+		fs = append(fs, "bighdr:delta_binary_packed")
+	case pqfile.TByteArray:
+		fs = append(fs, "bighdr:delta_length_byte_array")
+	case pqfile.TFloat, pqfile.TDouble:
+		fs = append(fs, "bighdr:byte_stream_split")
+	case pqfile.TBoolean:
+		fs = append(fs, "bighdr:rle_boolean")
+	}
+	if leaf.MaxDef > 0 {
+		fs = append(fs, "bighdr:bit_packed_def_levels")
+	}
 	// encoding ids by number: ids the format defines but that cannot be honoured here (8 without
 	// a dictionary page), ids a later format version may assign, and ids that only look like a
 	// supported one after truncation to 8 or 16 bits (256 = PLAIN, 259 = RLE, 65536)
@@ -144,6 +163,20 @@ var encodingIDs = []int32{8, 10, 64, 255, 256, 259, 65536, -1}
 // applyFeature rewrites chunk wc so that the page at index pi uses feature.
 // It returns false if the feature cannot be placed there.
 func applyFeature(wc *pqfile.WChunk, pi int, feature string) bool {
+	if strings.HasPrefix(feature, "bighdr:") {
+		if !applyFeature(wc, pi, feature[len("bighdr:"):]) {
+			return false
+		}
+		// the page that carries the feature (a dictionary/index page may have been inserted
+		// before it: take the first data page at or after pi)
+		for i := pi; i < len(wc.Pages); i++ {
+			if wc.Pages[i].Type == pqfile.PData || wc.Pages[i].Type == pqfile.PDataV2 {
+				wc.Pages[i].ExtraFields = append(wc.Pages[i].ExtraFields, thriftc.F(21, thriftc.Str(strings.Repeat("future-field-", 5600))))
+				return true
+			}
+		}
+		return false
+	}
 	leaf := wc.Leaf
 	p := &wc.Pages[pi]
 	src := p.Aux.(*PageSrc)
